@@ -15,6 +15,8 @@ import os
 import shutil
 import subprocess
 import sys
+import functools
+print = functools.partial(print, flush=True)
 import tempfile
 
 VERIF = os.path.dirname(os.path.dirname(os.path.abspath(__file__)))
